@@ -6,14 +6,16 @@
 //! high-entropy ones), 32-byte blinding factors, the seed, recovered mask components. Seed-derived nonces are
 //! scanned too but only reported as a NOTE (they are "created from" secrets in a looser sense).
 //!
-//! 64-bit value patterns need care. Moving a struct copies its padding bytes, and padding carries whatever the stack
-//! slot held before - e.g. seven bytes of a value the harness or the library itself had there. Next to a real byte
-//! that happens to equal the eighth (a small enum discriminant against the value's low byte) this is an eight-byte
-//! match in a block nobody ever stored a value in: observed once in 24000 thorough cases (discriminant of the
-//! extension degree, followed by 7 bytes of padding, in a cloned statement). Two defences: every byte of a
-//! registered value is >= 0x80 (no coincidence with tags, lengths, zeroised memory, canonical scalars' top byte), and
-//! a value hit is reported only if the same window hits again in two re-runs of the case with other values - a
-//! buffer that really holds the values is released in every run, a coincidence needs 2^-8 per re-run.
+//! Stale stack bytes need care. Moving a struct copies its padding, and `zeroize` ends the wiping of an `Option` with
+//! `ptr::write_volatile(self, None)`, which copies the undefined payload bytes of a stack temporary: both carry
+//! whatever the stack slot held before into heap blocks that never stored a secret. The second full thorough run
+//! reported `drop Box<RangeStatement> still held a value` in 2 of 24000 cases (release build): the dropped
+//! statement's seed slot held pointer-like garbage followed by `01 7b 5d cd cd ff 5f c3` - seven stale bytes of the
+//! value next to a byte equal to its low byte. Three defences: the stack below the window is overwritten with zeros
+//! before the scanner is armed (the harness's own copies of the secrets cannot be picked up); every byte of a
+//! registered 64-bit value is >= 0x80 (no coincidence with tags, lengths, small integers, zeroised memory or the top
+//! byte of canonical scalars); and a value hit is reported only if the same window hits again in two re-runs of the
+//! case with other values - a buffer that really holds the values is released in every run.
 
 use std::mem::MaybeUninit;
 
@@ -43,10 +45,23 @@ struct Win<'a> {
     value_hits: Vec<(String, String, Value)>,
 }
 
+/// Overwrite the stack below the caller with zeros, so that stale bytes the harness left there (copies of the very
+/// secrets it registered) cannot be picked up as padding / uninitialised-payload garbage by code run in the window
+#[inline(never)]
+fn scrub_stack() {
+    let mut a = [0u8; 192 * 1024];
+    for chunk in a.chunks_mut(64) {
+        unsafe { std::ptr::write_volatile(chunk.as_mut_ptr(), 0) };
+    }
+    unsafe { std::ptr::write_bytes(a.as_mut_ptr(), 0, a.len()) };
+    std::hint::black_box(&mut a);
+}
+
 impl<'a> Win<'a> {
     /// Run `f` with the scanner armed; classify what it saw
     fn window<T>(&mut self, name: &str, f: impl FnOnce() -> T) -> T {
         let _ = spy::take_report();
+        scrub_stack();
         spy::arm();
         let r = f();
         spy::disarm();
